@@ -171,7 +171,7 @@ mut("C08", "check_bad-does-not-delete", CROP,
 mut("C08", "resow-wipes-results", CROP,
     "        self.ensure_dirs_exists()\n        if self.save_fn:\n",
     "        if os.path.isdir(os.path.join(self.location, \"results\")):\n            shutil.rmtree(os.path.join(self.location, \"results\"))\n        self.ensure_dirs_exists()\n        if self.save_fn:\n")
-mut("C08", "progress-counts-any-file", CROP,
+mut("C11", "progress-counts-any-file", CROP,
     "                    os.path.join(self.location, \"results\", RSLT_NM.format(\"*\"))\n                )\n            )\n        else:\n            self._num_sown_batches = -1\n",
     "                    os.path.join(self.location, \"results\", \"xyz-*\")\n                )\n            )\n        else:\n            self._num_sown_batches = -1\n",
     "temporary files of a write in progress / left by a kill are counted")
@@ -228,7 +228,7 @@ mut("C10", "harvest-deletes-before-sync", CROP,
         if sync:
             harvester.add_ds(ds, sync=sync, overwrite=overwrite)
 """, "the v1.1.0 regression")
-mut("C10", "check_bad-accepts-unloadable", CROP,
+mut("C08", "check_bad-accepts-unloadable", CROP,
     "            if unloadable or (len(result) != len(batch)):\n",
     "            if (not unloadable) and (len(result) != len(batch)):\n")
 mut("C10", "harvester-file-removed-then-rewritten", FARM,
@@ -245,10 +245,11 @@ mut("C10", "harvester-file-removed-then-rewritten", FARM,
             os.remove(file_name)
         save_ds(self._full_ds, self.data_name, engine=engine)
 """, "reverts fix 786beb3")
-mut("C10", "settings-written-before-function", CROP,
+mut("C10", "control-settings-written-before-function", CROP,
     "        self.ensure_dirs_exists()\n        if self.save_fn:\n            self.save_function_to_disk()\n        self.save_info(combos=combos, cases=cases, fn_args=fn_args)\n",
     "        self.ensure_dirs_exists()\n        self.save_info(combos=combos, cases=cases, fn_args=fn_args)\n        if self.save_fn:\n            self.save_function_to_disk()\n",
-    "a kill between the two leaves a 'prepared' crop without its function")
+    "CONTROL (must stay quiet): a kill between the two leaves a prepared crop without its function, "
+    "but the documented recovery re-sows after a killed sow, so C10 still holds")
 # ----------------------------------------------------------------------- C11
 mut("C11", "result-published-in-place", CROP,
     """    tmp_fname = "{}.{}.tmp".format(fname, uuid.uuid4().hex)
@@ -303,7 +304,7 @@ mut("C12", "harvest-deletes-before-sync", CROP,
 mut("C12", "clean_up-default-always-true", CROP,
     "    if clean_up is None:\n        clean_up = not allow_incomplete\n\n    if allow_incomplete:\n",
     "    if clean_up is None:\n        clean_up = True\n\n    if allow_incomplete:\n")
-mut("C12", "to_ds-deletes-in-finally", CROP,
+mut("C12", "control-to_ds-deletes-inside-with", CROP,
     """                parse=parse,
                 to_df=to_df,
             )
@@ -320,7 +321,7 @@ mut("C12", "to_ds-deletes-in-finally", CROP,
                 self.delete_all()
 
         return data
-""", "deletes inside the Reaper context: before its 'all results reaped' check, and ... still after dataset construction")
+""", "CONTROL (must stay quiet): deleting inside the Reaper context still happens after the dataset was built")
 mut("C12", "to_ds-deletes-before-labelling", CROP,
     """        with Reaper(
             self,
@@ -370,7 +371,7 @@ mut("C15", "reap_samples-appends-twice", CROP,
     "            sampler._last_df = df\n            sampler.add_df(df, sync=sync)\n",
     "            sampler._last_df = df\n            sampler.add_df(df, sync=sync)\n            if len(df) == 3:\n                sampler.add_df(df, sync=sync)\n",
     "only for runs of exactly 3 samples")
-mut("C15", "cases-drawn-once-per-column", FARM,
+mut("C15", "control-cases-drawn-per-column", FARM,
     """        cases = tuple(
             tuple(
                 v() if callable(v) else np.random.choice(v)
@@ -382,7 +383,7 @@ mut("C15", "cases-drawn-once-per-column", FARM,
                 for v in combos.values()]
         cols = [sorted(c, key=repr) for c in cols]
         cases = tuple(zip(*cols))
-""", "still valid rows: NOT a violation of C15 (control mutant, must stay quiet)")
+""", "CONTROL (must stay quiet): rows are still valid draws with correct outputs")
 mut("C15", "overridden-combos-ignored", FARM,
     "        combos = {**self.default_combos, **combos}\n",
     "        combos = {**combos, **self.default_combos}\n")
@@ -406,10 +407,10 @@ mut("C16", "single-mode-ignores-explicit-ids", CROP,
 mut("C16", "cli-grows-everything", CLI,
     "    crop.grow_missing(**grow_kwargs)\n",
     "    crop.grow(tuple(range(1, crop.num_batches + 1)), **grow_kwargs)\n")
-mut("C16", "pbs-single-task-keeps-array", CROP,
+mut("C16", "control-pbs-single-task-keeps-array", CROP,
     "    if (scheduler == \"pbs\") and len(opts[\"batch_ids\"]) == 1:\n",
     "    if (scheduler == \"pbs\") and len(opts[\"batch_ids\"]) == 0:\n",
-    "a one-task PBS array header '#PBS -J 1-1' is kept (the stub accepts it: control)")
+    "CONTROL (must stay quiet): a one-task PBS array header '#PBS -J 1-1' is kept; the stub scheduler runs it fine")
 
 
 def main():
